@@ -18,11 +18,10 @@ string* `url` (`urlsplit`, `safe_urlsplit`, `pathsplit`, `infer_redirection`,
 * validators: `record_valid`, `extract_video_id_valid`.
 * round trip through the canonical url (`recordUrl r`, what `normalize_youtube_url` builds):
   `record_fields` (what the parser guarantees about the fields), `reparse_url_partial` on the
-  region `Residual` (fields without `&`, `%`, trailing white space; playlist ids without `?`, `/`,
-  `%`; channel names not reserved), `reparse_short` and
-  `reparse_video_without_playlist` full; `fullReparse_false` — outside `Residual` the statement is
-  false (known findings KF-C19-YT-1/2/3); `normalize_youtube_idempotent_partial`,
-  `normalize_unparsed_fixed`.
+  region `Residual` (names and channel ids without `%`; playlist ids without `/`, `%`), `reparse_short` and
+  `reparse_video_without_playlist` full; the three former counterexamples were repaired in /repo
+  (55c9bda, d47b8e8, 569f4b6, 716cf1e); one remains — `fullReparse_false`,
+  `fullIdempotent_false`: a TAB inside a continuation pattern held by a name, KF-C19-YT-4; `normalize_youtube_idempotent_partial`, `normalize_unparsed_fixed`.
 -/
 namespace Ural.Props.C19.Youtube
 open Ural Ural.Py Ural.C19 Ural.Youtube Ural.HostnameTrieSet
@@ -153,28 +152,35 @@ theorem youtube_trie_knows_www (puny : Str → Str) : KnowsWww puny (youtubeTrie
 
 /-! ## round trip -/
 
-/-- the full statement: re-parsing the canonical url of any parsed record gives the record back -/
+/-- the full statement: re-parsing the canonical url of any parsed record gives the record back.
+Proved on the region `Residual` below; false outside it (`fullReparse_false`, known finding
+KF-C19-YT-4). -/
 def FullReparse : Prop :=
   ∀ (puny : Str → Str) (t : T), KnowsWww puny t → ∀ url r,
     parse_youtube_url puny t url true = .ok (some r) →
     parse_youtube_url puny t (recordUrl r) true = .ok (some r)
 
 /-- **what the parser guarantees about the fields**: a playlist id is non-empty and holds no
-`&` / `#`; a user name, a channel id or name is a piece of the path `urlsplit` hands out: no
-`/`, `?`, `#`, TAB, CR, LF -/
+`&`, `#`, `?`; a user name or channel id is a piece of the path `urlsplit` hands out (no `/`, `?`,
+`#`, TAB, CR, LF) without `&` and without white space at either end; a channel name is such a
+piece without `&` -/
 theorem record_fields (puny : Str → Str) (t : T) (url : Str) (fix : Bool) (r : Record)
     (h : parse_youtube_url puny t url fix = .ok (some r)) : Fields r :=
   parse_fields puny t url fix r h
 
 /-- what is *left* to assume for the round trip, beyond what the parser guarantees: a playlist
-id without `?`, `/`, `%`; a user name / channel id without `&`, `%` and without trailing white
-space; a channel name without `&`, `%` that is not a reserved word -/
+id without `/` and `%`; a user name, channel id or channel name without `%`.  (`%`: the two
+continuation patterns `next=%2Fwatch…` are searched in the whole url; `/`: the cache-host
+patterns of `infer_redirection`.  A name or playlist id that really held one of these patterns
+would have been followed / taken for a video by the first parse — unless a TAB / CR / LF hides
+it there: the patterns are searched in the raw url, the path is read after `urlsplit` removed
+those characters; that is the counterexample `fullReparse_false`.) -/
 def Residual : Record → Prop
-  | .video _ (some p) => ∀ c ∈ p, c ≠ '?' ∧ c ≠ '/' ∧ c ≠ '%'
+  | .video _ (some p) => ∀ c ∈ p, c ≠ '/' ∧ c ≠ '%'
   | .video _ none => True
-  | .user name => (∀ c ∈ name, c ≠ '&' ∧ c ≠ '%') ∧ NoTrailingBlank name
-  | .channel (some cid) _ => (∀ c ∈ cid, c ≠ '&' ∧ c ≠ '%') ∧ NoTrailingBlank cid
-  | .channel none (some name) => (∀ c ∈ name, c ≠ '&' ∧ c ≠ '%') ∧ name ∉ blacklist
+  | .user name => ∀ c ∈ name, c ≠ '%'
+  | .channel (some cid) _ => ∀ c ∈ cid, c ≠ '%'
+  | .channel none (some name) => ∀ c ∈ name, c ≠ '%'
   | .channel none none => True
   | .short _ => True
 
@@ -187,19 +193,21 @@ theorem good_of_residual (r : Record) (hv : Valid true r) (hf : Fields r) (hr : 
   | .video _ none, _, _, _ => trivial
   | .short _, _, _, _ => trivial
   | .video _ (some p), _, hf, hr =>
-    exact ⟨hf.1, fun c hc => ⟨(hf.2 c hc).1, (hf.2 c hc).2, (hr c hc).1, (hr c hc).2.1, (hr c hc).2.2⟩⟩
+    exact ⟨hf.1, fun c hc => ⟨(hf.2 c hc).1, (hf.2 c hc).2.1, (hf.2 c hc).2.2, (hr c hc).1, (hr c hc).2⟩⟩
   | .user name, _, hf, hr =>
-    exact ⟨fun c hc => ⟨(hf c hc).1, (hf c hc).2.1, (hf c hc).2.2.1, (hr.1 c hc).1, (hr.1 c hc).2, (hf c hc).2.2.2⟩, hr.2⟩
+    exact ⟨fun c hc => ⟨(hf.1 c hc).1, (hf.1 c hc).2.1, (hf.1 c hc).2.2.1, fun e => hf.2.1 (e ▸ hc), hr c hc,
+      (hf.1 c hc).2.2.2⟩, hf.2.2⟩
   | .channel (some cid) none, _, hf, hr =>
-    exact ⟨fun c hc => ⟨(hf c hc).1, (hf c hc).2.1, (hf c hc).2.2.1, (hr.1 c hc).1, (hr.1 c hc).2, (hf c hc).2.2.2⟩, hr.2⟩
+    exact ⟨fun c hc => ⟨(hf.1 c hc).1, (hf.1 c hc).2.1, (hf.1 c hc).2.2.1, fun e => hf.2.1 (e ▸ hc), hr c hc,
+      (hf.1 c hc).2.2.2⟩, hf.2.2⟩
   | .channel none (some name), _, hf, hr =>
-    exact ⟨fun c hc => ⟨(hf c hc).1, (hf c hc).2.1, (hf c hc).2.2.1, (hr.1 c hc).1, (hr.1 c hc).2, (hf c hc).2.2.2⟩, hr.2⟩
+    exact fun c hc => ⟨(hf.1 c hc).1, (hf.1 c hc).2.1, (hf.1 c hc).2.2.1, fun e => hf.2 (e ▸ hc), hr c hc,
+      (hf.1 c hc).2.2.2⟩
 
 /-- **re-parsing the canonical url gives the same record** for every url whose record lies in
-`Residual`: playlist ids without `?`, `/`, `%`; user names and channel ids without `&`, `%` and
-trailing white space; channel names without `&`, `%` and not reserved.  Everything else `Good`
-asks for is guaranteed by the parser (`record_valid`, `record_fields`).  `t` is any domain trie
-that knows `www.youtube.com` (`youtube_trie_knows_www`: the module's trie does). -/
+`Residual`: playlist ids without `/`, `%`; names and channel ids without `%`.  Everything else
+the round trip needs is guaranteed by the parser (`record_valid`, `record_fields`).  `t` is any
+domain trie that knows `www.youtube.com` (`youtube_trie_knows_www`: the module's trie does). -/
 theorem reparse_url_partial (puny : Str → Str) (t : T) (hT : KnowsWww puny t) (url : Str) (r : Record)
     (h : parse_youtube_url puny t url true = .ok (some r)) (hr : Residual r) :
     parse_youtube_url puny t (recordUrl r) true = .ok (some r) :=
@@ -240,32 +248,42 @@ def smallTrie : T := ["youtube.com".toList, "youtu.be".toList].foldl (add isSpec
 
 theorem smallTrie_knows_www : KnowsWww id smallTrie := by unfold KnowsWww; decide +kernel
 
-/-- outside `Residual` the full statement is false: `youtube.com/@watch` parses to the channel
-`watch`, whose canonical url `https://www.youtube.com/watch` parses to `None`
-(known finding KF-C19-YT-1) -/
+/-- the hypothesis on `%` cannot be dropped: `youtube.com/user/ne<TAB>xt=%2Fwatch%3Fv%3D<id>` is
+the user `next=%2Fwatch%3Fv%3D<id>` (the TAB hides the continuation pattern from `NEXT_V_RE`,
+which reads the raw url, but not from the path, which `urlsplit` cleans), and the canonical url
+of that user is a continuation url: it parses to the video `<id>` (known finding KF-C19-YT-4) -/
 theorem fullReparse_false : ¬ FullReparse := by
   intro h
-  have h1 : parse_youtube_url id smallTrie "youtube.com/@watch".toList true =
-      .ok (some (.channel none (some "watch".toList))) := by rw [parse_eq_fuel]; decide +kernel
+  have h1 : parse_youtube_url id smallTrie "youtube.com/user/ne\txt=%2Fwatch%3Fv%3DdQw4w9WgXcQ".toList true =
+      .ok (some (.user "next=%2Fwatch%3Fv%3DdQw4w9WgXcQ".toList)) := by rw [parse_eq_fuel]; decide +kernel
   have h2 := h id smallTrie smallTrie_knows_www _ _ h1
-  have h3 : parse_youtube_url id smallTrie (recordUrl (.channel none (some "watch".toList))) true =
-      .ok none := by rw [parse_eq_fuel]; decide +kernel
+  have h3 : parse_youtube_url id smallTrie (recordUrl (.user "next=%2Fwatch%3Fv%3DdQw4w9WgXcQ".toList)) true =
+      .ok (some (.video "dQw4w9WgXcQ".toList none)) := by rw [parse_eq_fuel]; decide +kernel
   rw [h3] at h2
   exact absurd h2 (by decide)
 
-/-- the two other excluded shapes fail as well: a trailing blank (KF-C19-YT-2) and a redirect
-hint inside a playlist id (KF-C19-YT-3) -/
+/-- the hypothesis on `%` inside a playlist id cannot be dropped either: with two continuation
+patterns the leftmost gives the video id, the one inside the playlist id survives alone in the
+canonical url and gives another id (known finding KF-C19-YT-5) -/
 example :
-    parse_youtube_url id smallTrie "youtube.com/user/x /".toList true = .ok (some (.user "x ".toList)) ∧
-    parse_youtube_url id smallTrie (recordUrl (.user "x ".toList)) true = .ok (some (.user "x".toList)) := by
+    parse_youtube_url id smallTrie
+        "youtube.com/next=%2Fwatch%3Fv%3DAAAAAAAAAAA?list=next=%2Fwatch%3Fv%3DBBBBBBBBBBB".toList true =
+      .ok (some (.video "AAAAAAAAAAA".toList (some "next=%2Fwatch%3Fv%3DBBBBBBBBBBB".toList))) ∧
+    parse_youtube_url id smallTrie
+        (recordUrl (.video "AAAAAAAAAAA".toList (some "next=%2Fwatch%3Fv%3DBBBBBBBBBBB".toList))) true =
+      .ok (some (.video "BBBBBBBBBBB".toList (some "next=%2Fwatch%3Fv%3DBBBBBBBBBBB".toList))) := by
   rw [parse_eq_fuel, parse_eq_fuel]; decide +kernel
 
+/-- the shapes that used to break the round trip, as repaired (55c9bda, d47b8e8, 569f4b6,
+716cf1e): a reserved word behind `@` is no channel; a trailing blank is no part of a name; a
+playlist id stops at `?`; a name stops at `&` -/
 example :
+    parse_youtube_url id smallTrie "youtube.com/@watch".toList true = .ok none ∧
+    parse_youtube_url id smallTrie "youtube.com/user/x /".toList true = .ok (some (.user "x".toList)) ∧
     parse_youtube_url id smallTrie "https://www.youtube.com/watch?v=dQw4w9WgXcQ&q=1&list=a?u=http://x.com/".toList true =
-      .ok (some (.video "dQw4w9WgXcQ".toList (some "a?u=http://x.com/".toList))) ∧
-    parse_youtube_url id smallTrie
-      (recordUrl (.video "dQw4w9WgXcQ".toList (some "a?u=http://x.com/".toList))) true = .ok none := by
-  rw [parse_eq_fuel, parse_eq_fuel]; decide +kernel
+      .ok (some (.video "dQw4w9WgXcQ".toList (some "a".toList))) ∧
+    parse_youtube_url id smallTrie "q=1@youtube.com/user/a&u=%2Fx".toList true = .ok (some (.user "a".toList)) := by
+  rw [parse_eq_fuel, parse_eq_fuel, parse_eq_fuel, parse_eq_fuel]; decide +kernel
 
 /-- non-vacuity: a video with a playlist, found behind a fragment-swallowing url, in `Residual` -/
 example :
@@ -292,7 +310,7 @@ theorem normalize_unparsed_fixed (puny : Str → Str) (t : T) (url : Str)
   unfold normalize_youtube_url
   rw [h]
 
-/-- the full statement -/
+/-- the full statement (proved on `Residual` below; false outside it: `fullIdempotent_false`) -/
 def FullIdempotent : Prop :=
   ∀ (puny : Str → Str) (t : T), KnowsWww puny t → ∀ url n,
     normalize_youtube_url puny t url = .ok n → normalize_youtube_url puny t n = .ok n
@@ -319,16 +337,17 @@ theorem normalize_youtube_idempotent_partial (puny : Str → Str) (t : T) (hT : 
       unfold normalize_youtube_url
       rw [this]
 
-/-- outside `Residual` idempotence fails: `youtube.com/user/x␠/` normalizes to `…/user/x␠`, which
-normalizes to `…/user/x` (known finding KF-C19-YT-2) -/
+/-- outside `Residual` idempotence fails, for the same reason as `fullReparse_false`: the url
+normalizes to `…/user/next=%2Fwatch%3Fv%3D<id>`, which normalizes to `…/watch?v=<id>`
+(known finding KF-C19-YT-4) -/
 theorem fullIdempotent_false : ¬ FullIdempotent := by
   intro h
-  have h1 : normalize_youtube_url id smallTrie "youtube.com/user/x /".toList =
-      .ok "https://www.youtube.com/user/x ".toList := by
+  have h1 : normalize_youtube_url id smallTrie "youtube.com/user/ne\txt=%2Fwatch%3Fv%3DdQw4w9WgXcQ".toList =
+      .ok "https://www.youtube.com/user/next=%2Fwatch%3Fv%3DdQw4w9WgXcQ".toList := by
     unfold normalize_youtube_url; rw [parse_eq_fuel]; decide +kernel
   have h2 := h id smallTrie smallTrie_knows_www _ _ h1
-  have h3 : normalize_youtube_url id smallTrie "https://www.youtube.com/user/x ".toList =
-      .ok "https://www.youtube.com/user/x".toList := by
+  have h3 : normalize_youtube_url id smallTrie "https://www.youtube.com/user/next=%2Fwatch%3Fv%3DdQw4w9WgXcQ".toList =
+      .ok "https://www.youtube.com/watch?v=dQw4w9WgXcQ".toList := by
     unfold normalize_youtube_url; rw [parse_eq_fuel]; decide +kernel
   rw [h3] at h2
   exact absurd h2 (by decide)
